@@ -25,9 +25,11 @@ pub(crate) fn vm_release_nop(_base: NonNull<u8>, _size: usize) {}
 /// An arena laid over a zeroed heap buffer of `chunks` commit chunks (Arena::new goes through mmap).
 /// The arena is leaked (`&'static`): `Drop` would call the foreign `munmap`.
 pub(crate) fn mk_arena(chunks: usize) -> &'static Arena {
-    let buf: &'static mut [u8] = vec![0u8; chunks * CHUNK].leak();
+    // page-aligned so that the real mprotect/madvise accept the range when a counterexample is replayed natively
+    let lay = Layout::from_size_align(chunks * CHUNK, 4096).unwrap();
+    let buf = unsafe { std::alloc::alloc_zeroed(lay) };
     Box::leak(Box::new(Arena {
-        base: NonNull::new(buf.as_mut_ptr()).unwrap(),
+        base: NonNull::new(buf).unwrap(),
         capacity: chunks * CHUNK,
         commit: Cell::new(0),
         offset: Cell::new(0),
@@ -142,4 +144,379 @@ fn alloc_raw__fails_iff_does_not_fit() {
     assert!(r.is_err() == (end > c0 && roundup(end) > cap), "post: Err iff roundup(end) > capacity");
     kani::cover!(r.is_err(), "cover: err");
     kani::cover!(r.is_ok(), "cover: ok");
+}
+
+// =====================================================================================================
+// reset(to)      requires wf, to <= offset   (call sites: ScratchArena::drop, scratch::init, Runtime frame resets)
+//                ensures offset' == to, commit unchanged, every byte below `to` and at/above commit untouched
+// =====================================================================================================
+// @harness property=C11,C14,C02 fn=Arena::reset kind=proof tier=quick cfg=debug domain="loop-free; all wf states, all to <= offset; debug 0xDD fill included"
+#[kani::proof]
+fn reset__contract() {
+    let a = any_arena(MAX_CHUNKS);
+    let (o0, c0, cap) = (a.offset.get(), a.commit.get(), a.capacity);
+    let to: usize = kani::any();
+    kani::assume(to <= o0);
+    let i: usize = kani::any();
+    kani::assume(i < cap);
+    let before = unsafe { *a.base.as_ptr().add(i) };
+    unsafe { a.reset(to) };
+    assert!(a.offset.get() == to, "post: offset == to");
+    assert!(a.commit.get() == c0 && a.capacity == cap, "post: commit and capacity unchanged");
+    assert!(wf(a), "post wf preserved");
+    let after = unsafe { *a.base.as_ptr().add(i) };
+    if i < to || i >= c0 {
+        assert!(after == before, "frame: bytes below the mark / above commit untouched");
+    }
+    kani::cover!(to < o0 && i < to, "cover: real reset, witness below mark");
+    kani::cover!(to == o0, "cover: no-op reset");
+    kani::cover!(o0 + 128 > c0 && to < o0, "cover: fill clipped at commit");
+}
+
+// =====================================================================================================
+// decommit()     requires wf
+//                ensures offset unchanged, commit' == min(commit, roundup(offset)), wf,
+//                the OS is asked to drop exactly [commit', commit) and only when that range is non-empty
+// =====================================================================================================
+static mut DECOMMIT_CALLS: usize = 0;
+static mut DECOMMIT_OFF: usize = 0;
+static mut DECOMMIT_LEN: usize = 0;
+static mut DECOMMIT_BASE: usize = 0;
+fn vm_decommit_record(base: NonNull<u8>, size: usize) {
+    unsafe {
+        DECOMMIT_CALLS += 1;
+        DECOMMIT_OFF = base.as_ptr() as usize - DECOMMIT_BASE;
+        DECOMMIT_LEN = size;
+    }
+}
+
+// @harness property=C11,C14 fn=Arena::decommit kind=proof tier=quick cfg=debug domain="loop-free; all wf states"
+#[kani::proof]
+#[kani::stub(<crate::sys::unix::UnixVirtualMemory as crate::sys::VirtualMemory>::decommit, vm_decommit_record)]
+fn decommit__contract() {
+    let a = any_arena(MAX_CHUNKS);
+    let (o0, c0, cap) = (a.offset.get(), a.commit.get(), a.capacity);
+    unsafe { DECOMMIT_BASE = a.base.as_ptr() as usize };
+    a.decommit();
+    let c1 = a.commit.get();
+    assert!(a.offset.get() == o0 && a.capacity == cap, "post: offset and capacity unchanged");
+    assert!(wf(a), "post wf preserved");
+    assert!(c1 == if roundup(o0) < c0 { roundup(o0) } else { c0 }, "post: commit' == min(commit, roundup(offset))");
+    unsafe {
+        if c1 < c0 {
+            assert!(DECOMMIT_CALLS == 1 && DECOMMIT_OFF == c1 && DECOMMIT_LEN == c0 - c1, "post: OS drops exactly [commit', commit)");
+        } else {
+            assert!(DECOMMIT_CALLS == 0, "post: no OS call when nothing to drop");
+        }
+    }
+    kani::cover!(c1 < c0, "cover: pages released");
+    kani::cover!(c1 == c0, "cover: nothing to release");
+}
+
+// =====================================================================================================
+// Allocator::grow(ptr, old, new)
+//   requires wf; [pb, pb+old.size) is a block below offset, aligned to old.align; new.size >= old.size; new.align <= old.align
+//   ensures  tail (pb+old == offset):  Ok => same pointer, offset' == offset + (new-old);
+//            else:                     Ok => fresh block per alloc_raw contract (at/above old offset, aligned to new.align)
+//            both: len == new.size, first old.size bytes of the result equal the old block, the old block is untouched;
+//            Err => state unchanged
+// =====================================================================================================
+fn any_block(a: &Arena, max_size: usize) -> (usize, Layout) {
+    let k: u32 = kani::any();
+    kani::assume(k <= 6);
+    let align = 1usize << k;
+    let size: usize = kani::any();
+    kani::assume(size <= max_size);
+    let pb: usize = kani::any();
+    kani::assume(pb % align == 0 && pb <= a.offset.get() && size <= a.offset.get() - pb);
+    (pb, Layout::from_size_align(size, align).unwrap())
+}
+
+const GROW_MAX: usize = if THOROUGH { 4096 } else { 256 };
+
+// @harness property=C11 fn=<Arena as Allocator>::grow kind=proof tier=quick cfg=debug timeout=600 domain="loop-free; all wf states; any block below offset (size <= 256, 4096 thorough; align <= 64); new size <= old + 256 (4096); positions/offsets only (contents: grow__content_scenarios)"
+#[kani::proof]
+#[kani::stub(<crate::sys::unix::UnixVirtualMemory as crate::sys::VirtualMemory>::commit, vm_commit_any)]
+fn grow__contract() {
+    let a = any_arena(MAX_CHUNKS);
+    let (o0, c0) = (a.offset.get(), a.commit.get());
+    let (pb, old) = any_block(a, GROW_MAX);
+    let extra: usize = kani::any();
+    kani::assume(extra <= GROW_MAX);
+    let k2: u32 = kani::any();
+    kani::assume(k2 <= 6 && (1usize << k2) <= old.align());
+    let new = Layout::from_size_align(old.size() + extra, 1usize << k2).unwrap();
+    let base = a.base.as_ptr();
+    let ptr = unsafe { NonNull::new_unchecked(base.add(pb)) };
+
+    let r = unsafe { a.grow(ptr, old, new) };
+
+    assert!(wf(a), "post wf preserved");
+    match r {
+        Ok(p) => {
+            let nb = p.cast::<u8>().as_ptr() as usize - base as usize;
+            assert!(p.len() == new.size(), "post ok: len == new size");
+            assert!(nb & (new.align() - 1) == 0, "post ok: aligned to new layout");
+            if pb + old.size() == o0 {
+                assert!(nb == pb, "post ok tail: grown in place");
+                assert!(a.offset.get() == o0 + extra, "post ok tail: offset advanced by the delta only");
+            } else {
+                assert!(nb >= o0, "post ok non-tail: fresh block at or above the old offset (disjoint from the old block)");
+                assert!(a.offset.get() == nb + new.size(), "post ok non-tail: offset == end of new block");
+            }
+            assert!(a.offset.get() <= a.commit.get(), "post ok: within commit");
+            kani::cover!(pb + old.size() == o0 && extra > 0, "cover: tail grow");
+            kani::cover!(pb + old.size() != o0 && old.size() > 0, "cover: non-tail grow (copy)");
+            kani::cover!(a.commit.get() > c0, "cover: grow crossed a commit boundary");
+        }
+        Err(_) => {
+            assert!(a.offset.get() == o0 && a.commit.get() == c0, "post err: state unchanged");
+            kani::cover!(true, "cover: grow failed");
+        }
+    }
+}
+
+// Contents across grow / grow_zeroed / Vec growth: concrete layout, symbolic bytes (memcpy between two symbolic
+// positions of one 64 KiB object does not terminate in CBMC, see DESIGN.md section 4).
+// @harness property=C11 fn=<Arena as Allocator>::grow+grow_zeroed kind=bounded tier=quick cfg=debug timeout=600 domain="bounded: fixed scenario (blocks of 5, 3, 12, 20 bytes at offset 0 of a fresh arena; tail and non-tail grow, grow_zeroed), all byte contents symbolic"
+#[kani::proof]
+#[kani::stub(<crate::sys::unix::UnixVirtualMemory as crate::sys::VirtualMemory>::commit, vm_commit_ok)]
+fn grow__content_scenarios() {
+    let a = mk_arena(1);
+    let l5 = Layout::from_size_align(5, 1).unwrap();
+    let l3 = Layout::from_size_align(3, 1).unwrap();
+    let l12 = Layout::from_size_align(12, 1).unwrap();
+    let l20 = Layout::from_size_align(20, 1).unwrap();
+    let pa = a.allocate(l5).unwrap().cast::<u8>();
+    let va: [u8; 5] = kani::any();
+    unsafe { std::ptr::copy_nonoverlapping(va.as_ptr(), pa.as_ptr(), 5) };
+    let pb = a.allocate(l3).unwrap().cast::<u8>();
+    let vb: [u8; 3] = kani::any();
+    unsafe { std::ptr::copy_nonoverlapping(vb.as_ptr(), pb.as_ptr(), 3) };
+    // A is not the tail: grow must copy
+    let pa2 = unsafe { a.grow(pa, l5, l12) }.unwrap();
+    let qa2 = pa2.cast::<u8>().as_ptr();
+    assert!(pa2.len() == 12, "scenario: non-tail grow len");
+    assert!(qa2 as usize >= pb.as_ptr() as usize + 3, "scenario: non-tail grow lands above every live block");
+    let mut i = 0;
+    while i < 5 {
+        assert!(unsafe { *qa2.add(i) } == va[i], "scenario: non-tail grow preserves contents");
+        assert!(unsafe { *pa.as_ptr().add(i) } == va[i], "scenario: non-tail grow leaves the old block untouched");
+        i += 1;
+    }
+    i = 0;
+    while i < 3 {
+        assert!(unsafe { *pb.as_ptr().add(i) } == vb[i], "scenario: neighbour block untouched by grow");
+        i += 1;
+    }
+    // A' is now the tail: grow_zeroed in place
+    let off_before = a.offset.get();
+    let pa3 = unsafe { a.grow_zeroed(pa2.cast(), l12, l20) }.unwrap();
+    let qa3 = pa3.cast::<u8>().as_ptr();
+    assert!(qa3 == qa2 && pa3.len() == 20 && a.offset.get() == off_before + 8, "scenario: tail grow in place by the delta");
+    i = 0;
+    while i < 5 {
+        assert!(unsafe { *qa3.add(i) } == va[i], "scenario: tail grow preserves contents");
+        i += 1;
+    }
+    i = 12;
+    while i < 20 {
+        assert!(unsafe { *qa3.add(i) } == 0, "scenario: grow_zeroed zeroes exactly the new bytes");
+        i += 1;
+    }
+    kani::cover!(true, "cover: scenario completed");
+}
+
+// Vec<u8, &Arena> growth goes through allocate/grow only: contents survive interleaved growth of two vectors.
+// @harness property=C11 fn=Vec<u8,&Arena>::push->Allocator::grow kind=bounded tier=quick cfg=debug timeout=600 domain="bounded: two vectors, 9 and 5 pushes interleaved (RawVec growth 0->8->16), symbolic bytes"
+#[kani::proof]
+#[kani::unwind(10)]
+#[kani::stub(<crate::sys::unix::UnixVirtualMemory as crate::sys::VirtualMemory>::commit, vm_commit_ok)]
+fn vec_growth__contents_preserved() {
+    let a = mk_arena(1);
+    let xs: [u8; 9] = kani::any();
+    let ys: [u8; 5] = kani::any();
+    let mut v: Vec<u8, &Arena> = Vec::new_in(a);
+    let mut w: Vec<u8, &Arena> = Vec::new_in(a);
+    let mut i = 0;
+    while i < 9 {
+        v.push(xs[i]);
+        if i < 5 {
+            w.push(ys[i]);
+        }
+        i += 1;
+    }
+    i = 0;
+    while i < 9 {
+        assert!(v[i] == xs[i], "vec: first vector keeps its contents across non-tail growth");
+        if i < 5 {
+            assert!(w[i] == ys[i], "vec: second vector keeps its contents");
+        }
+        i += 1;
+    }
+    let (vb, wb) = (v.as_ptr() as usize, w.as_ptr() as usize);
+    assert!(vb + v.capacity() <= wb || wb + w.capacity() <= vb, "vec: live buffers are disjoint");
+    kani::cover!(v.capacity() >= 16, "cover: vector grew twice");
+}
+
+// @harness property=C11 fn=<Arena as Allocator>::allocate_zeroed kind=proof tier=quick cfg=debug domain="all wf states; size <= 4096 (content checked at a symbolic index), align <= 64"
+#[kani::proof]
+#[kani::stub(<crate::sys::unix::UnixVirtualMemory as crate::sys::VirtualMemory>::commit, vm_commit_any)]
+fn allocate_zeroed__contract() {
+    let a = any_arena(MAX_CHUNKS);
+    let o0 = a.offset.get();
+    let k: u32 = kani::any();
+    kani::assume(k <= 6);
+    let size: usize = kani::any();
+    kani::assume(size <= 4096);
+    let lay = Layout::from_size_align(size, 1usize << k).unwrap();
+    let w: usize = kani::any();
+    kani::assume(w < a.capacity);
+    unsafe { *a.base.as_ptr().add(w) = 0xAB };
+    let z: usize = kani::any();
+    kani::assume(z < size);
+    if let Ok(p) = a.allocate_zeroed(lay) {
+        let q = p.cast::<u8>().as_ptr();
+        assert!(p.len() == size, "post ok: len == size");
+        assert!(unsafe { *q.add(z) } == 0, "post ok: every byte is zero");
+        assert!((q as usize - a.base.as_ptr() as usize) >= o0, "post ok: block at or above old offset");
+        assert!((q as usize - a.base.as_ptr() as usize) % lay.align() == 0, "post ok: aligned");
+        kani::cover!(size > 0, "cover: allocate_zeroed ok");
+    }
+}
+
+// =====================================================================================================
+// Allocator::shrink     tail: offset' == offset - old + new, same pointer, len == new.size
+//                       non-tail (release builds; debug builds assert): block and state unchanged, len == old.size
+// =====================================================================================================
+// @harness property=C11 fn=<Arena as Allocator>::shrink kind=proof tier=quick cfg=debug domain="loop-free; all wf states; tail block of any size <= offset"
+#[kani::proof]
+fn shrink__tail_contract() {
+    let a = any_arena(MAX_CHUNKS);
+    let (o0, c0) = (a.offset.get(), a.commit.get());
+    let old_size: usize = kani::any();
+    kani::assume(old_size <= o0);
+    let new_size: usize = kani::any();
+    kani::assume(new_size <= old_size);
+    let pb = o0 - old_size;
+    let old = Layout::from_size_align(old_size, 1).unwrap();
+    let new = Layout::from_size_align(new_size, 1).unwrap();
+    let ptr = unsafe { NonNull::new_unchecked(a.base.as_ptr().add(pb)) };
+    let r = unsafe { a.shrink(ptr, old, new) };
+    let p = r.unwrap();
+    assert!(p.cast::<u8>() == ptr && p.len() == new_size, "post tail: same pointer, len == new size");
+    assert!(a.offset.get() == pb + new_size && a.commit.get() == c0, "post tail: offset == block start + new size");
+    assert!(wf(a), "post wf preserved");
+    kani::cover!(new_size < old_size, "cover: real shrink");
+}
+
+// =====================================================================================================
+// contains_ptr(p)   <=>  base <= p < base + capacity     for every address, including ones that wrap
+// =====================================================================================================
+// @harness property=C11,C02 fn=Arena::contains_ptr kind=proof tier=quick cfg=debug domain="loop-free; every usize address"
+#[kani::proof]
+fn contains_ptr__contract() {
+    let a = any_arena(MAX_CHUNKS);
+    let addr: usize = kani::any();
+    let base = a.base.as_ptr() as usize;
+    let inside = addr >= base && addr - base < a.capacity;
+    assert!(a.contains_ptr(addr as *const u8) == inside, "post: contains_ptr(p) <=> base <= p < base + capacity");
+    kani::cover!(inside, "cover: inside");
+    kani::cover!(addr < base, "cover: below base");
+    kani::cover!(addr >= base && !inside, "cover: above end");
+}
+
+// =====================================================================================================
+// Arena::new(capacity)   requires capacity <= isize::MAX
+//                        ensures Ok(a) => a.capacity == roundup(max(capacity,1)) >= capacity, offset == commit == 0
+// =====================================================================================================
+fn vm_reserve_fixed(_size: usize) -> Result<NonNull<u8>, u32> {
+    if kani::any() { Ok(NonNull::from(Box::leak(Box::new(0u8)))) } else { Err(12) }
+}
+
+// @harness property=C11 fn=Arena::new kind=proof tier=quick cfg=debug domain="loop-free; every capacity <= isize::MAX; reserve may fail"
+#[kani::proof]
+#[kani::stub(<crate::sys::unix::UnixVirtualMemory as crate::sys::VirtualMemory>::reserve, vm_reserve_fixed)]
+fn new__contract() {
+    let capacity: usize = kani::any();
+    kani::assume(capacity <= isize::MAX as usize);
+    match Arena::new(capacity) {
+        Ok(a) => {
+            assert!(a.capacity >= capacity && a.capacity >= 1, "post ok: capacity covers the request");
+            assert!(a.capacity % CHUNK == 0 && a.capacity - capacity.max(1) < CHUNK, "post ok: capacity == roundup64K(max(request,1))");
+            assert!(a.offset.get() == 0 && a.commit.get() == 0, "post ok: empty and nothing committed");
+            assert!(wf(&a), "post ok: wf");
+            kani::cover!(capacity == 0, "cover: zero request");
+            kani::cover!(capacity % CHUNK == 0 && capacity > 0, "cover: exact multiple");
+            std::mem::forget(a);
+        }
+        Err(_) => {
+            kani::cover!(true, "cover: reserve failed");
+        }
+    }
+}
+
+// =====================================================================================================
+// alloc_uninit_slice::<T>(count)   ensures the returned slice has `count` elements that all lie inside the
+//                                  reservation above the old offset (no wrap-around of size_of::<T>() * count)
+// =====================================================================================================
+// A panic is a clean failure ("fails cleanly instead of returning out-of-bounds memory"): paths that end in
+// Result::unwrap/expect on Err simply stop; what is checked is every path on which the call RETURNS.
+fn unwrap_or_stop<T, E: std::fmt::Debug>(r: Result<T, E>) -> T {
+    match r {
+        Ok(t) => t,
+        Err(_) => {
+            kani::assume(false);
+            loop {}
+        }
+    }
+}
+fn expect_or_stop<T, E: std::fmt::Debug>(r: Result<T, E>, _msg: &str) -> T {
+    unwrap_or_stop(r)
+}
+
+// @harness property=C11 fn=Arena::alloc_uninit_slice kind=proof tier=quick cfg=release domain="loop-free; T=u64; every count; every wf state of a 1-chunk arena; release arithmetic (wrapping multiply)"
+#[kani::proof]
+#[kani::stub(<crate::sys::unix::UnixVirtualMemory as crate::sys::VirtualMemory>::commit, vm_commit_ok)]
+#[kani::stub(std::result::Result::unwrap, unwrap_or_stop)]
+#[kani::stub(std::result::Result::expect, expect_or_stop)]
+fn alloc_uninit_slice__contract() {
+    let a = any_arena(1);
+    let o0 = a.offset.get();
+    let count: usize = kani::any();
+    let s = a.alloc_uninit_slice::<u64>(count);
+    // reached only when the call returned
+    let beg = s.as_ptr() as usize - a.base.as_ptr() as usize;
+    assert!(s.len() == count, "post: count elements");
+    assert!(count <= a.capacity / 8, "post: a returned slice fits the reservation (size_of::<T>() * count did not wrap)");
+    assert!(beg >= o0 && beg % 8 == 0 && a.offset.get() - beg == count * 8, "post: block above old offset, aligned, offset == end");
+    kani::cover!(count > 0, "cover: non-empty slice returned");
+    kani::cover!(count == 0, "cover: empty slice returned");
+}
+
+// ---- accessors for harnesses in sibling modules (scratch.rs, pool.rs, ...): Arena's fields are private to bump.rs ----
+pub(crate) fn set_state(a: &Arena, offset: usize, commit: usize) {
+    a.offset.set(offset);
+    a.commit.set(commit);
+}
+pub(crate) fn commit_of(a: &Arena) -> usize {
+    a.commit.get()
+}
+pub(crate) fn capacity_of(a: &Arena) -> usize {
+    a.capacity
+}
+pub(crate) fn base_of(a: &Arena) -> *mut u8 {
+    a.base.as_ptr()
+}
+/// Moves a leaked arena's state into a by-value `Arena` (for `static mut S_SCRATCH`), leaving no second owner behind.
+pub(crate) fn arena_value(chunks: usize, offset: usize, commit: usize) -> Arena {
+    let a = mk_arena(chunks);
+    Arena {
+        base: a.base,
+        capacity: a.capacity,
+        commit: Cell::new(commit),
+        offset: Cell::new(offset),
+        #[cfg(debug_assertions)]
+        borrows: Cell::new(0),
+    }
 }
